@@ -335,11 +335,13 @@ func main() {
 	poolRounds := flag.Int("pool", 10, "rounds of the pooled-side-encoder stream (one Canonical handle, >= 8 x GOMAXPROCS goroutines each)")
 	nakedRounds := flag.Int("naked", 10, "rounds of the naked-decode stream (native timestamps into interface{}, one shared Handle)")
 	poolStateRounds := flag.Int("poolstate", 15, "rounds of the pooled-side-encoder state stream (aborted operations, then acyclic values sharing the pointers)")
+	reuseRounds := flag.Int("reuse", 15, "rounds of the reused-destination stream (own Decoder and own reused record per goroutine, small byte-string lengths, results compared after all goroutines finished)")
+	embedRounds := flag.Int("embed", 15, "rounds of the embedding stream (several Handles with different TypeInfos, fresh struct types with embedding, reflect oracle)")
 	caseTrials := flag.Int("casetrials", 1<<30, "only the first N trials are written as model cases")
 	flag.Parse()
 	seed := vh.SeedFromEnv()
 	r := vh.NewRng(seed)
-	sum := vh.NewSummary("trial = fresh Handle + fresh TypeInfos + fresh reflect.StructOf types, 2..64 goroutines released by a barrier, each running its own enc/dec ops over bytes and io; non-trivial = at least two goroutines use a common fresh type (first-use race possible); distinct by (format, goroutines bucket, types, shared types, transports, cache sizes bucket). Each trial also yields one model case per non-empty published cache slice (9 per handle). pool: Canonical handle x key kind (yielding Text/Binary marshaler, struct, array, interface{} holding struct) x format, >= 8 x GOMAXPROCS goroutines each re-encoding its own map, bytes compared with the sequential bytes; distinct by (format, key kind, transport). naked: one shared Handle, >= 4 x GOMAXPROCS goroutines each decoding its own stream with native timestamps/strings/ints into interface{} (slice, map, nested), value compared with the same bytes decoded alone; distinct by (format, transport, has native times). poolstate: Canonical+CheckCircularRef Handle, operations that abort inside an out-of-band map key (cycle, failing marshaler under a pointer), then the same pointers acyclic from several goroutines, bytes compared with a fresh Handle; non-trivial = some operation aborted; distinct by (format, abort kind)")
+	sum := vh.NewSummary("trial = fresh Handle + fresh TypeInfos + fresh reflect.StructOf types, 2..64 goroutines released by a barrier, each running its own enc/dec ops over bytes and io; non-trivial = at least two goroutines use a common fresh type (first-use race possible); distinct by (format, goroutines bucket, types, shared types, transports, cache sizes bucket). Each trial also yields one model case per non-empty published cache slice (9 per handle). pool: Canonical handle x key kind (yielding Text/Binary marshaler, struct, array, interface{} holding struct) x format, >= 8 x GOMAXPROCS goroutines each re-encoding its own map, bytes compared with the sequential bytes; distinct by (format, key kind, transport). naked: one shared Handle, >= 4 x GOMAXPROCS goroutines each decoding its own stream with native timestamps/strings/ints into interface{} (slice, map, nested), value compared with the same bytes decoded alone; distinct by (format, transport, has native times). poolstate: Canonical+CheckCircularRef Handle, operations that abort inside an out-of-band map key (cycle, failing marshaler under a pointer), then the same pointers acyclic from several goroutines, bytes compared with a fresh Handle; non-trivial = some operation aborted; distinct by (format, abort kind). reuse: one shared Handle, 2..64 goroutines each with its own Decoder (reused or new per message, bytes or io) and its own REUSED destinations (record with []byte/string/[][]byte/map[string][]byte/*[]byte fields and a bare []byte) decoding a sequence whose byte-string lengths walk nil,0,1,0,2,1,0,3,...; what each destination holds once ALL goroutines have finished the step (barrier per step, or only at the end) is compared with the same sequence run alone; distinct by (format, goroutines, ZeroCopy, barrier mode). embed: 2-3 Handles with different TypeInfos (default, NewTypeInfos(db/json), (codec/json), (json)), 2..16 goroutines with fresh reflect.StructOf embedding chains (value / pointer embedding, sibling embedded struct, named field of the embedded type, tag renames per key), every chain member used as a root on every Handle before the embedding struct is first seen; encoded field set and decoded fields compared with Go's embedding rules computed by reflect; distinct by (format, handles, chain depth, shared family)")
 	cv := vh.NewCases(*casesDir, "From Coq Require Import List NArith.\nFrom Verif Require Import C06.Model C06.Corr.\nImport ListNotations.", "case", "mismatches", 40)
 	caseID := 0
 	gChoices := []int{2, 3, 4, 8, 16, 32, 64}
@@ -571,6 +573,8 @@ trials:
 	poolStream(r.Fork(), *poolRounds, *watchdog, sum)
 	nakedStream(r.Fork(), *nakedRounds, *watchdog, sum)
 	poolStateStream(r.Fork(), *poolStateRounds, *watchdog, sum)
+	reuseStream(r.Fork(), *reuseRounds, *watchdog, sum)
+	embedStream(r.Fork(), *embedRounds, *watchdog, sum)
 	sum.Print()
 	os.Stdout.Sync()
 }
